@@ -16,8 +16,8 @@ import (
 
 // held is one registry lookup result a task keeps (and later mutates).
 type held struct {
-	f      *openflow13.MatchField
-	expect openflow13.MatchField // what this task last knows the value to be (Value/Mask compared by identity)
+	f       *openflow13.MatchField
+	expect  openflow13.MatchField // what this task last knows the value to be (Value/Mask compared by identity)
 	name    string
 	step    int
 	mutated bool
